@@ -279,8 +279,12 @@ func c18Enum() *senum {
 			func() *rt.Node { return Id("y") },
 		},
 		forInits: []nodeFn{nil, func() *rt.Node { return rt.Assign("=", Id("y"), I(0)) }},
-		forConds: []nodeFn{nil, func() *rt.Node { return rt.Bin("<", Id("x"), I(2)) }},
-		forSteps: []nodeFn{nil, func() *rt.Node { return inc("x") }},
+		// w is only ever assigned inside bodies: a header that mentions it (behind a short-circuit the first
+		// time round) must find it undefined — what a finished iteration assigned is gone
+		forConds: []nodeFn{nil, func() *rt.Node { return rt.Bin("<", Id("x"), I(2)) },
+			func() *rt.Node { return rt.Normalize(rt.Bin("||", rt.Bin("<", Id("x"), I(1)), rt.Bin("<", Id("w"), I(2)))) }},
+		forSteps: []nodeFn{nil, func() *rt.Node { return inc("x") },
+			func() *rt.Node { return rt.Normalize(rt.Assign("=", Id("x"), rt.Bin("+", rt.Bin("+", Id("x"), I(1)), rt.Bin("*", Id("w"), I(0))))) }},
 		forIns: []func(body *rt.Node) *rt.Node{
 			func(b *rt.Node) *rt.Node { return rt.ForIn("y", rt.List(I(1), I(2)), b) },
 			func(b *rt.Node) *rt.Node { return rt.ForIn("x", rt.Str("ab"), b) },
